@@ -83,7 +83,7 @@ struct Faulty<'a> {
     fail: &'a str,
 }
 impl Source for Faulty<'_> {
-    fn read(&self, id: &str, ext: &str) -> io::Result<FileContent> {
+    fn read(&self, id: &str, ext: &str) -> io::Result<FileContent<'_>> {
         self.inner.read(id, ext)
     }
     fn read_dir(&self, id: &str, f: &mut dyn FnMut(DirEntry)) -> io::Result<()> {
